@@ -23,7 +23,9 @@ from simcore.driver import EngineBase
 from simcore.sched import install_locks, install_pools
 from simcore.world import MUTATING, O, SimWorld, snapshot
 
-VERSIONS = ["absent", 0, 1, 2, 3, 10, "3-legacy", "10-legacy"]  # "-legacy": newer version, old layout
+# "-legacy": newer version, old layout; "absent-new": current layout (.signac/config) without a
+# schema_version entry, which counts as version 1 and must be refused like any other old version
+VERSIONS = ["absent", 0, 1, 2, 3, 10, "3-legacy", "10-legacy", "absent-new"]
 NAMES = ["None", "myproject", "my project v2", "proj-1.0_(test)", "a, b", "it's \"quoted\" #1"]
 WORKSPACES = ["default", "custom", "nested", "colliding"]
 NJOBS = [0, 1, 3, 5]
@@ -35,7 +37,7 @@ class Engine(EngineBase):
         return (SPACE, 55.0) if tier == "quick" else (SPACE * 10, 900.0)
 
     def rule(self):
-        return (f"configurations enumerated by mixed radix over the run index (product of {SPACE}: 8 version/layout spellings x 6 "
+        return (f"configurations enumerated by mixed radix over the run index (product of {SPACE}: 9 version/layout spellings x 6 "
                 "names x 4 workspace settings x legacy files x 4 job counts x project document); state points, "
                 "listing order and chunking drawn from the seed. both tiers walk the whole product (quick once, thorough ten times with different "
                 "seeds for state points, listing order and chunking). distinct = configuration tuples; non-trivial = a refusal or a migration was checked")
@@ -136,8 +138,15 @@ class Run:
             os.makedirs(os.path.join(pp, ".signac"))
             c = configobj.ConfigObj()
             c.filename = os.path.join(pp, ".signac", "config")
-            c["schema_version"] = str(ver)
+            if ver == "absent-new":
+                if cfg["pdoc"]:
+                    c["statepoint_cache_miss_warning_threshold"] = "100"
+            else:
+                c["schema_version"] = str(ver)
             c.write()
+            if ver == "absent-new" and not os.path.exists(c.filename):
+                with O.io_open(c.filename, "wb"):
+                    pass
         ws = os.path.join(pp, wsname)
         if legacy or self.sc["sps"] or cfg["workspace"] in ("default", "colliding"):
             os.makedirs(ws)
@@ -216,8 +225,8 @@ class Run:
         pp = self.world.p("proj")
         wsname, jobs = self.build(pp)
         ver = cfg["version"]
-        vnum = 0 if ver == "absent" else int(str(ver).split("-")[0])
-        legacy = vnum < 2 or str(ver).endswith("-legacy")
+        vnum = 0 if ver == "absent" else 1 if ver == "absent-new" else int(str(ver).split("-")[0])
+        legacy = (vnum < 2 and ver != "absent-new") or str(ver).endswith("-legacy")
         snap0 = snapshot(pp, mtimes=True)
         trees0 = self.job_trees(os.path.join(pp, wsname))
         key = f"{ver}|{cfg['name']}|{cfg['workspace']}|{cfg['legacy_files']}|{cfg['njobs']}|{cfg['pdoc']}"
@@ -236,6 +245,11 @@ class Run:
             for d in subdirs:
                 self.refused(f"get_project({os.path.relpath(d, pp)})", lambda d=d: signac.get_project(d), pp, snap0)
             self.refused("init_project()", lambda: signac.init_project(pp), pp, snap0)
+        if ver == "absent-new":
+            # what a migration makes of a current-layout configuration without a version is not part of
+            # the property; only the refusal is
+            self.probe("refusal_without_version_entry")
+            return
         # ---- migration --------------------------------------------------------------------------
         import contextlib
         import io
